@@ -21,7 +21,7 @@ import calendar
 
 from .. import sym
 from ..model import AnalysisError, Program, attr_chain, norm_stmt
-from ..paths import Engine, Hooks, State, Seq
+from ..paths import vkey, Engine, Hooks, State, Seq
 from ..report import Result
 from ..selftest import Variant
 from ..sym import Rat
@@ -417,18 +417,23 @@ def _check_calendar(prog: Program, res: Result):
         res.ob("R08.4", f"{name}: adds 24 * monthdays(loop month) per month (got {inc.key()[:120]})", ok_inc, prog.loc(fi, loop))
         if not ok_inc:
             res.violation("R08.4", f"{name}-increment", prog.loc(fi, loop), q, f"{name} adds {inc.key()[:200]} per month instead of 24 * monthdays(month)")
-        # the special case  if month == 1: lmh = 31 * 24  must agree with the loop result
+        # any assignment to the accumulator outside the loop overrides the sum: only `month == 1 -> 31 * 24` agrees with it
+        from ..paths import cmp_is, negate
+
         for n in ast.walk(fi.node):
             if isinstance(n, ast.If) and not any(x is loop for x in ast.walk(n)):
-                for s in n.body:
-                    if isinstance(s, ast.Assign) and len(s.targets) == 1 and isinstance(s.targets[0], ast.Name) and s.targets[0].id == a:
-                        c = eng.cond(n.test, st)
-                        v = eng.eval(s.value, st)
-                        if c.kind == "cmp" and c.a.equals(Rat.atom("month") - Rat.const(1)) and c.s == frozenset("0") and name == "last_month_hour":
-                            ok_sp = isinstance(v, Rat) and v.is_const() and v.const_value() == 31 * 24
-                            res.ob("R08.4", f"{name}: special case month == 1 equals 31 * 24", ok_sp, prog.loc(fi, s))
+                for blk, pol in ((n.body, True), (n.orelse, False)):
+                    for s in blk:
+                        if isinstance(s, ast.Assign) and len(s.targets) == 1 and isinstance(s.targets[0], ast.Name) and s.targets[0].id == a:
+                            c = eng.cond(n.test, st)
+                            if not pol:
+                                c = negate(c)
+                            v = eng.eval(s.value, st)
+                            ok_sp = cmp_is(c, Rat.atom(fi.params()[0]) - Rat.const(1), "0") and isinstance(v, Rat) and v.is_const() and v.const_value() == 31 * 24
+                            res.ob("R08.4", f"{name}: the only override of the sum is 'month == 1 -> 31 * 24', which equals it", ok_sp, prog.loc(fi, s))
                             if not ok_sp:
-                                res.violation("R08.4", f"{name}-special:{v}", prog.loc(fi, s), q, f"{name}(1) is overridden with {v} instead of 744")
+                                res.violation("R08.4", f"{name}-special:{vkey(v)[:30]}:{c.key()[:60]}", prog.loc(fi, s), q,
+                                              f"{name} overrides the accumulated hours with {vkey(v)[:40]} under '{c.key()[:80]}'; only month == 1 -> 744 agrees with the sum")
 
     # ---- output tables (also used by C19)
     for q in ("ghedesigner.output.OutputManager.hours_to_month", "ghedesigner.output.OutputManager.ghe_time_convert"):
